@@ -6,6 +6,7 @@ import (
 	"encoding/json"
 	"errors"
 	"fmt"
+	"go.opentelemetry.io/collector/consumer/consumererror"
 	"sync"
 	"testing"
 
@@ -37,6 +38,10 @@ type Cons struct {
 	// Fail: ConsumeX returns this consumer's own error value (Wrap: wrapped with %w).
 	Fail bool `json:"fail,omitempty"`
 	Wrap bool `json:"wrap,omitempty"`
+	// ErrKind: what else the returned error is (it always satisfies errors.Is(result, the leaf's own value)):
+	// "" | deadline | canceled (it wraps a context error of the CONSUMER's own making - an export timeout, a
+	// component shutting down - while the fan-out's context is alive) | permanent | joined
+	ErrKind string `json:"err_kind,omitempty"`
 	// Undeclared is a mutation attempt of a consumer that did NOT declare
 	// MutatesData (every step is tried separately, panics are recovered).
 	Undeclared []Op `json:"undeclared,omitempty"`
@@ -115,7 +120,25 @@ func genCons(t *rapid.T, i int, ix *siteIndex) Cons {
 	}
 	c.Fail = pct(t, "fail", 30)
 	c.Wrap = c.Fail && rapid.Bool().Draw(t, "wraperr")
+	if c.Fail {
+		c.ErrKind = rapid.SampledFrom([]string{"", "", "deadline", "canceled", "permanent", "joined"}).Draw(t, "errkind")
+	}
 	return c
+}
+
+// shapeErr dresses a leaf's error value up as kind.
+func shapeErr(e error, kind string) error {
+	switch kind {
+	case "deadline":
+		return fmt.Errorf("%w: export attempt timed out: %w", e, context.DeadlineExceeded)
+	case "canceled":
+		return errors.Join(context.Canceled, e)
+	case "permanent":
+		return consumererror.NewPermanent(e)
+	case "joined":
+		return errors.Join(errors.New("some other failure"), e)
+	}
+	return e
 }
 
 func genFan(t *rapid.T) FanScript {
@@ -384,9 +407,9 @@ func runFan(s FanScript) (nontrivial bool, key string, f *vt.Finding) {
 			}
 			if c.Fail {
 				if c.Wrap {
-					return fmt.Errorf("wrapped by leaf %d: %w", i, st.err)
+					return fmt.Errorf("wrapped by leaf %d: %w", i, shapeErr(st.err, c.ErrKind))
 				}
-				return st.err
+				return shapeErr(st.err, c.ErrKind)
 			}
 			return nil
 		})
